@@ -1,11 +1,10 @@
-//! C01 — query results follow spec field collection and completion (static, derive-built schema S1).
+//! C01 — query results follow spec field collection and completion (static, derive-built schemas: the
+//! hand-written S1 and the generated family of harness/gens).
 
-use serde_json::json;
 use vh_core::Run;
 use vh_model::doc::OpKind;
 use vh_model::gen_doc::gen_doc;
 use vh_model::world::World;
-use vh_schema::s1;
 
 use crate::common::*;
 
@@ -14,7 +13,12 @@ pub fn main() {
         "exploration",
         "the derive-built schema family S1 (Object, SimpleObject+ComplexObject, MergedObject root, Interface, Union incl. \
          flatten, Enum, InputObject with defaults, OneofObject, MaybeUndefined/Option/Vec wrappers in every nullability \
-         combination, guard) with data-driven resolvers; valid-by-construction operations over its hand model (aliases, \
+         combination, guard) plus the generated derive-built family g0..g5 (harness/gens: six schemas generated from \
+         gen_ts type systems — #[Object], SimpleObject(+ComplexObject, members behind interfaces), MergedObject query and \
+         mutation roots, Interface incl. interface-implements-interface and fields with arguments, Union incl. flatten, \
+         Enum, InputObject incl. recursion/defaults/MaybeUndefined, OneofObject, custom #[Scalar]s, Option<Result<T>> and \
+         Box<T> return shapes; names and SDL hashes in extra.schema) with data-driven resolvers; valid-by-construction \
+         operations over the hand model of S1 / the generating model of each family member (aliases, \
          repeated keys, inline/named fragments on object/interface/union conditions, @skip/@include from literals, \
          variables and variable defaults, every way of supplying variables) executed by the real executor; response data \
          compared (key order included) with the reference executor R1 on the same data world. Non-trivial = document \
@@ -23,32 +27,41 @@ pub fn main() {
     run.assume("reference executor R1 and coercion model (harness/model) implement GraphQL spec Oct-2021 §6");
     run.assume("documents are valid by construction (response-key table argument in gen_doc.rs)");
     run.assume("the hand model s1::model() states what the Rust source of S1 declares (cross-checked against introspection in C18)");
+    run.assume("each generated module of harness/gens declares exactly the model it was generated from (start-up self-check: model rebuilt from the seed equals the embedded SDL, and introspection of the real schema equals the model)");
     let cases = run.scale(12_000, 600_000);
+    // the generated derive-built family: per member a quarter (quick) / a sixth (thorough) of S1's cases
+    let family_cases = run.scale(3_000, 100_000);
     run.set_floors(2000, 600);
     run.require_counter("resolver_events");
     let shards = n_shards(&run);
-    let ts = s1::model();
-    let schema = AnySchema::S1(s1::schema());
+    let members = static_family(&run);
     let run = &run;
+    crate::witness_gens::c01_nested_interface(run);
     std::thread::scope(|sc| {
         for shard in 0..shards {
-            let ts = ts.clone();
-            let schema = schema.clone();
+            let members = members.clone();
             sc.spawn(move || {
-                let mut r = shard_rng(run, 1, shard);
-                let mut i = shard;
-                while i < cases {
-                    i += shards;
-                    let mut o = doc_opts(run);
-                    o.kind = if r.chance(1, 6) { OpKind::Mutation } else { OpKind::Query };
-                    let gd = gen_doc(&ts, &mut r, &o);
-                    let world = World::new(r.next_u64());
-                    let case = Case::new(ts.clone(), gd, world, r.bool());
-                    crate::c02::one(run, &schema, &case);
+                for m in &members {
+                    // S1 keeps the random stream (and so the workload) it had before the family existed
+                    let mut r = if m.name == "S1" { shard_rng(run, 1, shard) } else { vh_core::Rng::new(vh_core::rng::mix(&[run.seed, 1, shard, vh_core::rng::hash_str(m.name)])) };
+                    let n = if m.name == "S1" { cases } else { family_cases };
+                    let has_mutation = m.ts.mutation.is_some();
+                    let counter = format!("cases_{}", m.name);
+                    let mut i = shard;
+                    while i < n {
+                        i += shards;
+                        let mut o = doc_opts(run);
+                        o.kind = if has_mutation && r.chance(1, 6) { OpKind::Mutation } else { OpKind::Query };
+                        let gd = gen_doc(&m.ts, &mut r, &o);
+                        let world = World::new(r.next_u64());
+                        let case = Case::new(m.ts.clone(), gd, world, r.bool());
+                        run.count(&counter, 1);
+                        crate::c02::one(run, &m.schema, &case);
+                    }
                 }
             });
         }
     });
-    run.extra("schema", json!("S1 (harness/schema/src/s1.rs)"));
+    run.extra("schema", static_family_extra(&members));
     run.finish_code_exit();
 }
